@@ -451,6 +451,7 @@ extern void pxgstrf_SetIWork (int_t, int_t, int_t *, int_t **, int_t **, int_t *
 		      int_t **, int_t **, int_t **, int_t **);
 extern void pcgstrf_SetRWork (int_t, int_t, complex *, complex **, complex **);
 extern void pcgstrf_WorkFree (int_t *, complex *, GlobalLU_t *);
+extern void pcgstrf_WorkFreeAll (void);
 extern int_t  pcgstrf_MemXpand (int_t, int_t, MemType, int_t *, GlobalLU_t *);
 
 extern int_t  *intMalloc (int_t);
